@@ -43,6 +43,10 @@ func toRune(value int64) rune {
 }
 
 func int64ToSeed(value int64) string {
+	if value <= 0 {
+		// no logarithm to take; the random values this is used for are never negative
+		return "0"
+	}
 	e := int(math.Floor(math.Log(float64(value)) / math.Log(radix)))
 	seed := make([]rune, 0, e)
 	posValue := int64(math.Pow(radix, float64(e)))
